@@ -336,6 +336,14 @@ func (n *SimNet) UnicastCount(a, b int) int {
 	return n.Unicasts[[2]int{a, b}]
 }
 
+// Reachable tells whether b can be reached from a over links that are up.
+func (n *SimNet) Reachable(a, b int) bool {
+	n.mu.Lock()
+	defer n.mu.Unlock()
+	_, ok := n.bfs(a)[b]
+	return ok
+}
+
 // LinkDown tells whether the link between a and b is down.
 func (n *SimNet) LinkDown(a, b int) bool {
 	n.mu.Lock()
